@@ -256,6 +256,9 @@ SETS = [
     ("Credentials", "protocol_types/credentials.rs", "serialization/credentials.rs", "credentials", "HashSet<Rc<Credential>>"),
     ("TransactionInputs", "protocol_types/tx_inputs.rs", "serialization/tx_inputs.rs", "inputs", "BTreeSet<Rc<TransactionInput>>"),
     ("Certificates", "protocol_types/certificates/certificates_collection.rs", "serialization/certificates/certificates_collection.rs", "certs", "HashSet<Rc<Certificate>>"),
+    # `for element in self`: IntoIterator for &Self is `self.<field>.iter().map(|rc| rc.as_ref())` (read from the impl); R-intoiter iterates the field
+    ("Ed25519KeyHashes", "protocol_types/ed25519_key_hashes.rs", "serialization/ed25519_key_hashes.rs", "keyhashes", "HashSet<Rc<Ed25519KeyHash>>"),
+    ("VotingProposals", "protocol_types/governance/proposals/voting_proposals.rs", "serialization/governance/proposals/voting_proposals.rs", "proposals", "HashSet<Rc<VotingProposal>>"),
 ]
 for (ty, tfile, sfile, field, idx) in SETS:
     toml.append('[[type]]\nsource = "rust/src/%s"\nname = "%s"\nsubst = [ { rule = "R-abstract-field", from = "%s", to = "DedupIndex" } ]\n' % (tfile, ty, idx))
@@ -283,7 +286,7 @@ index = 0
 ghost = "it"
 invariant = ["serializer.toks() =~= t0.push(Tok::Tag(258)).push(Tok::Arr(self.%s@.len() as u64)) + flat(self.%s@.take(it.index@ as int))", "it.index@ <= self.%s@.len()"]
 body_head = "assert(it.index@ < self.%s@.len()); lemma_flat_step(self.%s@, it.index@ as int);"
-''' % (sfile, impl_hdr, ty, ty, ('subst = [ { rule = "R-path", from = "write_array(Len::Len(", to = "write_array(cbor_event::Len::Len(" } ]' if 'write_array(Len::Len(' in s_ else ''), ty, field, field, field, ty, ty, field, field, field, field, field))
+''' % (sfile, impl_hdr, ty, ty, ('subst = [ { rule = "R-path", from = "write_array(Len::Len(", to = "write_array(cbor_event::Len::Len(" } ]' if 'write_array(Len::Len(' in s_ else ('subst = [ { rule = "R-intoiter", from = "for element in self {", to = "for element in &self.%s {" } ]' % field if 'for element in self {' in s_ else '')), ty, field, field, field, ty, ty, field, field, field, field, field))
 
 # ---- leaves: one token ------------------------------------------------------------------------------------------------------------
 LEAVES = [
